@@ -57,16 +57,33 @@ class HTTP(BaseComponent):
             or self._parser.is_upgrade()
             or (self._parser.is_headers_complete() and self._parser._clen == 0)
         ):
-            status = self._parser.get_status_code()
-            version = self._parser.get_version()
-            headers = self._parser.get_headers()
+            self._fire_response()
 
-            res = ResponseObject(headers, status, version)
-            res.body.write(self._parser.recv_body())
-            res.body.seek(0)
-            self.fire(response(res))
+    @handler('disconnected')
+    def _on_client_disconnected(self, *args):
+        # a response with neither Content-Length nor chunked coding ends
+        # when the server closes the connection
+        parser = self._parser
+        if (
+            parser.is_headers_complete()
+            and not parser.is_message_complete()
+            and not parser.is_chunked()
+            and parser._clen is None
+        ):
+            parser.execute(b'', 0)
+            self._fire_response()
 
-            # TODO: This sucks :/ Avoiding the circuit import here :/
-            from circuits.web.parsers import HttpParser
+    def _fire_response(self):
+        status = self._parser.get_status_code()
+        version = self._parser.get_version()
+        headers = self._parser.get_headers()
 
-            self._parser = HttpParser(1, True)
+        res = ResponseObject(headers, status, version)
+        res.body.write(self._parser.recv_body())
+        res.body.seek(0)
+        self.fire(response(res))
+
+        # TODO: This sucks :/ Avoiding the circuit import here :/
+        from circuits.web.parsers import HttpParser
+
+        self._parser = HttpParser(1, True)
